@@ -51,5 +51,51 @@ def run(ck: Check):
         cfg["limit"] = limit
         v = "Y" + "".join(r.choice("YN") for _ in range(400))
         ex.one("minimize", cfg, tc, content(tc), v, clock=clock, stream="deadline")
+    cli_validation(ck)
     ex.diff()
     return ck.finish(level="proof", rule=RULE)
+
+
+def cli_validation(ck):
+    """min / max / chunk-size that are not powers of two are refused at start-up; a time limit of
+    0 is a limit"""
+    import argparse
+    import contextlib
+    import io
+    from lithium.strategies import Minimize
+
+    def parse(argv):
+        s = Minimize()
+        p = argparse.ArgumentParser()
+        s.add_args(p)
+        try:
+            with contextlib.redirect_stderr(io.StringIO()):
+                args = p.parse_args(argv)
+                s.process_args(p, args)
+        except SystemExit:
+            return None
+        return s
+
+    def pow2(v):
+        return v >= 1 and v & (v - 1) == 0
+
+    for opt in ("--min", "--max", "--chunk-size"):
+        for v in (0, 1, 2, 3, 4, 6, 8, -2, -4, 2 ** 30, 2 ** 30 + 1, 12):
+            for argv in ([opt, str(v)], [f"{opt}={v}"]):
+                s = parse(argv)
+                ck.count("validation")
+                ck.nontrivial(("validation", tuple(argv)))
+                if (s is None) == pow2(v):
+                    ck.violation(f"Minimize options {argv}: " + ("refused although a power of two" if s is None
+                                 else f"accepted although {v} is not a power of two (min={s.minimize_min} "
+                                      f"max={s.minimize_max} repeat={s.minimize_repeat})"),
+                                 {"argv": argv})
+                elif s is not None and opt == "--chunk-size" and not (
+                        s.minimize_min == v and s.minimize_max == v and s.minimize_repeat == "never"):
+                    ck.violation(f"--chunk-size {v} did not set min=max={v}, repeat=never", {"argv": argv})
+    for v in (0, 1, 7):
+        s = parse(["--max-run-time", str(v)])
+        ck.count("validation")
+        if s is None or s.stop_after_time != v:
+            ck.violation(f"--max-run-time {v}: limit in force is {None if s is None else s.stop_after_time}",
+                         {"argv": ["--max-run-time", str(v)]})
